@@ -97,11 +97,13 @@ SCOPES = {
         ("chain", dict(MaxCard=2, MaxUses=1, CardChoice={3, 4, 5, 8, 9, 10, 13}, HomeChoice={1, 2, 3}, Defaults={0, 1}, Mutations={0})),
         ("abstract", dict(MaxCard=1, MaxUses=2, CardChoice={1, 3, 7, 11, 12}, HomeChoice={4, 5, 6, 7, 8}, Defaults={0}, Mutations={1})),
         ("objects", dict(MaxCard=1, MaxUses=2, CardChoice={1, 4}, HomeChoice={1, 9, 10}, Defaults={0}, Mutations={0, 2, 3})),
+        ("refined", dict(MaxCard=1, MaxUses=2, CardChoice={1}, HomeChoice={2, 11, 12}, Defaults={0}, Mutations={0})),
     ],
     "thorough": [
         ("chain", dict(MaxCard=2, MaxUses=2, CardChoice=ALL_CARD, HomeChoice={1, 2, 3}, Defaults={0, 1}, Mutations={0})),
         ("abstract", dict(MaxCard=1, MaxUses=2, CardChoice=ALL_CARD, HomeChoice={3, 4, 5, 6, 7, 8}, Defaults={0, 1}, Mutations={0, 1})),
         ("objects", dict(MaxCard=2, MaxUses=2, CardChoice={1, 3, 4, 8}, HomeChoice={1, 2, 9, 10}, Defaults={0, 1}, Mutations={0, 2, 3})),
+        ("refined", dict(MaxCard=1, MaxUses=3, CardChoice={1, 3, 8}, HomeChoice={1, 2, 4, 11, 12}, Defaults={0}, Mutations={0})),
     ],
 }
 
